@@ -17,6 +17,8 @@ FAMILY_ARGS = {
     'leasemgr': {'quick': [], 'thorough': []},
     'hist': {'quick': ['-seed', '{seed}', '-n', '700'],
              'thorough': ['-seed', '{seed}', '-n', '12000']},
+    'lease': {'quick': ['-seed', '{seed}', '-n', '600'],
+              'thorough': ['-seed', '{seed}', '-n', '12000']},
     'cycle': {'quick': ['-seed', '{seed}', '-n', '2000', '-exhaustive', '3', '-maxops', '40'],
               'thorough': ['-seed', '{seed}', '-n', '40000', '-exhaustive', '4', '-maxops', '200']},
 }
@@ -32,6 +34,17 @@ _hist_rule = ('hist family: seeded random timed API histories against the real B
               '(trace acceptance) and through the property monitors; plus the corpus of minimised past failures; ')
 _hist_assumptions = ['log lines are written after the action they report; the driver accepts any placement of the action consistent with that',
                      'traces whose candidate-state set exceeds the bound are counted as inconclusive (reported), not as mismatches']
+
+
+_lease_rule = ('lease family: seeded random scenarios of 1-3 real SharedResource instances of one generation (v1 AzureSharedResource / v2 SharedResource) on ONE fake lease store '
+               'under testing/synctest (virtual clock, 15 s leases): configurations (shared 0..50000, reserved, factor incl. default and non-divisors, >500 partitions, MaxInterval), '
+               'scripts of Start / GiveMe (rising, falling, zero, below reserve, above max) / SetReservedCapacity / SetSharedCapacity (grow, shrink, zero) / Stop / cancel / crash, '
+               'per-call store latency before and after the grant, refusals and errors at chosen calls, slow or failing provisioning; every call, store decision, return, event and '
+               'sampled Capacity()/MaxCapacity() is replayed label by label through the M-Lease machine (each label must be enabled; no expiry may be overdue; figures must agree) '
+               'and through the property monitors; plus the corpus of minimised past failures (F7, F8, F10); ')
+_lease_assumptions = ['the lease store is a fake with the semantics of an exclusive 15 s lease starting when the request is processed; Azure Blob itself is modelled, not verified (C18 ties the lease manager to the SDK)',
+                      'the harness "crash" cancels the context and stops consulting the instance; a real process death (model label crash) is not exercised by the correspondence',
+                      'samples taken while CreatePartitions runs, while a lease call is in flight, or at the very instant of a grant/expiry are not compared (the published figure lags the partition list there)']
 
 PROPS = {
     'C01': {
@@ -141,6 +154,42 @@ PROPS = {
         'explanation': 'complete case analysis over every error value + list induction over provisioning runs of any length; exhaustive fault enumeration ties it to both lease managers',
         'assumptions': ['the azblob SDK, its HTTP pipeline and Azure Blob semantics are modelled (fakes / loopback server), not verified',
                         'the SDK code list is read from the module cache by both the extractor and the harness'],
+    },
+
+    'C04': {
+        'families': ['lease'], 'fields': {'lease': None},
+        'nontrivial': r'inst=[^ ;]*;[^ ]* .*ev:\d+:allocated',
+        'rule': _lease_rule + 'non-trivial = at least two instances and at least one grant counted',
+        'explanation': 'mutual-exclusion invariant Excl of the M-Lease machine (any number of instances, all latencies, faults, crashes, reconfiguration), lifted to all runs; settled-state corollaries; sum bound',
+        'assumptions': _lease_assumptions,
+    },
+    'C06': {
+        'families': ['lease'], 'fields': {'lease': None},
+        'nontrivial': r'ev:\d+:allocated',
+        'rule': _lease_rule + 'non-trivial = at least one grant counted',
+        'explanation': 'well-formedness invariant LWF (counted partitions distinct and inside the provisioned range, parts <= 500, parts = partitionCount) + arithmetic of ceil and MaxCapacity',
+        'assumptions': _lease_assumptions + ['v1 ProvisionedResource (one constant for Capacity and MaxCapacity) is covered by an extracted shape fact, not by the lease family'],
+    },
+    'C07': {
+        'families': ['lease'], 'fields': {'lease': None},
+        'nontrivial': r':issue:\d+:\d+',
+        'rule': _lease_rule + 'non-trivial = at least one lease request was issued',
+        'explanation': 'guard of the issue label, target frame lemma, timers never postponed, Quiet invariant over run segments => decay within one lease duration',
+        'assumptions': _lease_assumptions,
+    },
+    'C09': {
+        'families': ['lease'], 'fields': {'lease': None},
+        'nontrivial': r'(:proc:\d+:\d+:(refuse|error))|(act:K:)|(act:X:)',
+        'rule': _lease_rule + 'non-trivial = a refusal/error was injected or an instance was stopped/crashed',
+        'explanation': 'PARTIAL: safety parts and k-partitions-in-k-iterations proved for the model; the bound on the loop sleep (MaxInterval) and the random partition choice are observed by the monitor, not proved',
+        'assumptions': _lease_assumptions + ['the model does not bound the loop sleep; the time bound is the theorem instantiated with iterations of at most MaxInterval + latency'],
+    },
+    'C17': {
+        'families': ['lease'], 'fields': {'lease': None},
+        'nontrivial': r'(act:c:)|(act:r:)|(act:X:)|(act:S:\d+:[A-Za-z]*[Ee]rr)',
+        'rule': _lease_rule + 'non-trivial = a live reconfiguration, a stop, or a failed start happened',
+        'explanation': 'phase automaton (monotone), one shutdown, no request after stop, SetReservedCapacity immediate, re-provision keeps existing/drops truncated partitions, index safety invariant',
+        'assumptions': _lease_assumptions + ['absence of panics in the real code is observed on every scenario (harness recover + child process exit), not proved'],
     },
     'C14': {
         'families': ['admit', 'hist'],
